@@ -798,6 +798,20 @@ func c07Judge(e *env, pend []c07Pending, reqs []string) {
 		if p.valid && r[3] != "#1" {
 			e.res.Fail(hx.Violation{Kind: "mismatch", What: "a parsed template does not have the shape the theorems assume (registry_shaped)", Case: p.c}, "")
 		}
+		if len(r) >= 7 {
+			// the two Coq models of CheckDataRefs (Model/Checker.v of C07, Model/Compile.v of C13) are proved equal
+			// (C07_checker_models_agree) on registries whose map literals list their items by increasing key
+			if r[6] != "#1" {
+				e.res.Fail(hx.Violation{Kind: "mismatch", What: "a parsed map literal does not list its items by increasing key (registry_maps_sorted)", Case: p.c}, "")
+			}
+			if r[5] != "-" {
+				e.res.Histogram["second-model:"+strings.SplitN(r[5], ":", 2)[0]]++
+				if r[5] != r[0] { // Registry.Add succeeded ("-" otherwise): r[0] is the verdict of CheckDataRefs
+					e.res.Fail(hx.Violation{Kind: "mismatch", What: "the two models of CheckDataRefs (Model/Checker.v, Model/Compile.v) give different verdicts", Case: p.c,
+						Expected: r[0], Observed: r[5]}, "")
+				}
+			}
+		}
 		known := ""
 		if p.c.Injected == "loopfunc-on-nonloop" {
 			known = "loopfunc-on-nonloop-accepted"
@@ -852,6 +866,9 @@ func c07Render(e *env, files []srcFile, tmpls []*gtemplate, o progOpts, trees []
 	if len(jr) < 4 {
 		e.res.Fail(hx.Violation{Kind: "mismatch", What: "model cannot judge the registry", Case: c07Case{Files: files}, Observed: fmt.Sprint(jr)}, "")
 		return
+	}
+	if len(jr) >= 6 && (jr[4] != jr[0] || jr[5] != "#1") {
+		e.res.Fail(hx.Violation{Kind: "mismatch", What: "the two models of CheckDataRefs disagree on the compiled registry, or a map literal is not listed by increasing key", Case: c07Case{Files: files}, Observed: fmt.Sprint(jr)}, "")
 	}
 	if jr[0] != "accept" || jr[1] != "#1" || jr[2] != "#1" {
 		e.res.Fail(hx.Violation{Kind: "mismatch", What: "the compiled registry of an accepted bundle is not accepted / well-formed / shaped for the model", Case: c07Case{Files: files}, Observed: fmt.Sprint(jr)}, "")
@@ -908,6 +925,20 @@ func c07Render(e *env, files []srcFile, tmpls []*gtemplate, o progOpts, trees []
 				}
 			} else {
 				e.res.Histogram["render:model-outcome-differs-or-outside-model"]++
+			}
+		}
+		// the refined counter of the model (misses of declared params of the executing template are not counted):
+		// 0 on every accepted bundle (C07_accepted_no_unbound_lookup), whatever the calls pass
+		rx := e.m.Call("render_x", key, sx(t.full()), "#4000", "(vm 0 (x6b (vi 1)))", ";", dsx)
+		if len(rx) >= 2 && len(r) >= 5 {
+			e.res.Histogram["render_x:"+rx[0]]++
+			if rx[1] != "#0" {
+				e.res.Fail(hx.Violation{Kind: "mismatch", What: "the refined unbound-lookup counter of the model is not 0 on an accepted bundle", Case: pc,
+					Expected: "#0", Observed: rx[1]}, "")
+			}
+			if rx[0] != strings.Split(r[0], ",")[0] || strings.Join(rx[2:], " ") != strings.Join(r[5:], " ") {
+				e.res.Fail(hx.Violation{Kind: "mismatch", What: "render_x and render of the model differ in outcome or output", Case: pc,
+					Expected: fmt.Sprint(r), Observed: fmt.Sprint(rx)}, "")
 			}
 		}
 		_ = out
